@@ -196,6 +196,14 @@ impl Property for C11 {
                     return Err(("mtime-not-clamped".into(), format!("a file mtime {bad} is later than the source date {sd}")));
                 }
             }
+            // a gzip member header carries a modification time of its own
+            let payload = &first[seg.payload_start..];
+            if payload.len() >= 8 && payload[0] == 0x1f && payload[1] == 0x8b {
+                let t = u32::from_le_bytes([payload[4], payload[5], payload[6], payload[7]]);
+                if t > sd {
+                    return Err(("payload-time-not-clamped".into(), format!("the gzip header of the payload carries timestamp {t}, later than the source date {sd}")));
+                }
+            }
             let times = signature_times(&first, &seg);
             if cfg.signer.is_some() && times.is_empty() {
                 return Err(("signature-time".into(), "signed package without a readable signature creation time".into()));
